@@ -480,18 +480,22 @@ func initTopicP2P(t *Topic, sreg *ClientComMessage) error {
 		userData.modeGiven = sub1.ModeGiven
 		userData.delID = sub1.DelId
 		userData.readID = sub1.ReadSeqId
-		userData.recvID = sub1.RecvSeqId
+		// A read note moves only the stored read mark: received is never behind read.
+		userData.recvID = max(sub1.RecvSeqId, sub1.ReadSeqId)
+		// The private value of a subscription which exists already comes from the store.
+		userData.private = sub1.Private
 		t.perUser[userID1] = userData
 
 		t.perUser[userID2] = perUserData{
 			public:    sub2.GetPublic(),
 			trusted:   sub2.GetTrusted(),
 			topicName: userID1.UserId(),
+			private:   sub2.Private,
 			modeWant:  sub2.ModeWant,
 			modeGiven: sub2.ModeGiven,
 			delID:     sub2.DelId,
 			readID:    sub2.ReadSeqId,
-			recvID:    sub2.RecvSeqId,
+			recvID:    max(sub2.RecvSeqId, sub2.ReadSeqId),
 		}
 	}
 
